@@ -65,7 +65,7 @@ package rules
 //@   ensures ret1 == nil ==> unbox(ret0, *ruleFactory).mode == mode
 
 //@ func (*ruleFactory).CreateRule
-//@   props C14
+//@   props C14 C03
 //@   requires f.defaultRule == nil ==> !f.defaultBacktracking
 //@   watch old(f.defaultRule)
 //@   watch old(f.defaultBacktracking)
@@ -97,6 +97,9 @@ package rules
 //@   ensures ret1 == nil && len(ruleConfig.EncodedSlashesHandling) == 0 ==> unbox(ret0, *ruleImpl).slashesHandling == config2.EncodedSlashesOff
 //@   ensures ret1 == nil && len(ruleConfig.EncodedSlashesHandling) != 0 ==> unbox(ret0, *ruleImpl).slashesHandling == ruleConfig.EncodedSlashesHandling
 //@   ensures ret1 == nil ==> !unbox(ret0, *ruleImpl).isDefault
+// C03 / C08: "(encoded slashes only as permitted by the rule's encoded-slash setting)": the
+// path_params matchers of a rule work under the very setting the rule executes with
+//@   assert at call createPathParamsMatcher#1@b3920c30.1: callarg1 == rul.slashesHandling
 
 // ======================================================================================
 // C01 / C04: the execute pipeline. Calls of the step interfaces are recorded in ghost logs
